@@ -29,7 +29,8 @@ type CSVCase struct {
 	RowCountHint     int                 `json:"row_count_hint,omitempty"`
 	Rename           bool                `json:"rename,omitempty"`
 	Alias            string              `json:"alias,omitempty"`
-	OddHeader        bool                `json:"odd_header,omitempty"` // header contains empty/duplicate names
+	OddHeader        bool                `json:"odd_header,omitempty"`  // header contains empty/duplicate names
+	AliasTyped       bool                `json:"alias_typed,omitempty"` // Types declares "string" for the aliased (nameless) column
 
 	Doc []byte `json:"-"`
 	// DocText is Doc quoted for the trace.
@@ -224,6 +225,24 @@ func DrawCSV(t *rapid.T, b CSVBounds) *CSVCase {
 		c.RowCountHint = rapid.IntRange(0, 4000).Draw(t, "hintval")
 	}
 
+	// a type declared under the ALIAS of a column without a name: options
+	// that refer to columns by name must see the names the frame ends up with
+	if c.OddHeader && c.Alias != "" && !big {
+		empties, dups := 0, false
+		seenN := map[string]bool{}
+		for _, n := range c.Names {
+			if n == "" {
+				empties++
+			} else if seenN[n] {
+				dups = true
+			}
+			seenN[n] = true
+		}
+		if empties == 1 && !dups && !seenN[c.Alias] && rapid.Bool().Draw(t, "aliastype") {
+			c.Types = map[string]string{c.Alias: "string"}
+			c.AliasTyped = true
+		}
+	}
 	// declared types
 	if cardinality > 0 {
 		c.Types = map[string]string{c.Names[0]: "enum"}
